@@ -194,6 +194,30 @@ def run(tier: str, rng: random.Random, proof_ok: bool) -> dict:
                  (("DictAnyV", [P(LONG[0], SHORT3), P(LONG[1], SHORT3)], None, None, True), ("VDict", [P(LONG[2], LONG[2])])),
                  (("UnionV", [SHORT3, ("SetV", SHORT3, [], [], None), ("NoneV", None)]), ("VSet", LONG[1:4]))]:
         cases.append(std_case(v, x, "sync", tag="builtin"))
+    # failures far below the root (renderers that indent or abbreviate by depth must cope with any depth)
+    INTV = ("Scalar", ("KInt",), None, [], [("PMin", G.I(0), False)], [])
+    deep_inner = [(("SetV", INTV, [], [], None), ("VSet", [G.S("x"), G.I(-1)])),
+                  (("ListV", INTV, [], [], None), ("VList", [G.I(1), G.S("x")])),
+                  (("MapV", INTV, INTV, [], [], None), ("VDict", [P(G.S("k"), G.I(-2))])),
+                  (("DictAnyV", [P(G.S("a"), INTV)], None, None, True), ("VDict", [P(G.S("b"), G.I(1))])),
+                  (("UnionV", [INTV, ("NoneV", None)]), G.S("x")),
+                  (("MaybeV", ("SetV", INTV, [], [], None)), ("VJust", ("VSet", [G.S("y")])))]
+    for v0, x0 in deep_inner:
+        for depth in (5, 6, 7, 9, 12):
+            v, x = v0, x0
+            for i in range(depth):
+                if i % 3 == 2:
+                    v, x = ("DictAnyV", [P(G.S("k"), v)], None, None, False), ("VDict", [P(G.S("k"), x)])
+                else:
+                    v, x = ("ListV", v, [], [], None), ("VList", [x])
+            cases.append(std_case(v, x, "sync", tag="builtin", fuel=4 * depth + 20))
+    # record keys that are tuples / share their str() form with another key kind
+    KI = ("Scalar", ("KInt",), None, [], [], [])
+    for keys in ([("VTuple", [G.I(1), G.S("x")]), G.S("a")], [("VTuple", []), G.I(1)], [("VTuple", [G.S("a")]), G.S("b")], [G.I(1), G.S("name")]):
+        v = ("DictAnyV", [P(k, KI) for k in keys], None, None, False)
+        cases.append(std_case(v, ("VDict", [P(k, G.S("bad")) for k in keys]), "sync", tag="builtin"))
+        cases.append(std_case(v, ("VDict", [P(keys[0], G.S("bad")), P(keys[1], G.I(1))]), "sync", tag="builtin"))
+        cases.append(std_case(("MapV", ("AlwaysValid",), KI, [], [], None), ("VDict", [P(k, G.S("bad")) for k in keys]), "sync", tag="builtin"))
     for c in cases:
         try:
             observe(c)
@@ -264,6 +288,27 @@ def run(tier: str, rng: random.Random, proof_ok: bool) -> dict:
         except Exception as e:  # noqa
             if c.tag == "builtin":
                 report("C12:render-raised", f"to_serializable_errs(inv, next_level) raised {e!r}", c)
+        # (b') a callback whose results are falsy JSON values: every child slot still holds its result
+        FALSY = [0, None, "", [], False, {}, 0.0]
+        rets: List[Any] = []
+
+        def nl0(child, rets=rets):
+            rets.append(FALSY[len(rets) % len(FALSY)])
+            return rets[-1]
+        try:
+            out3 = to_serializable_errs(inv, nl0)
+            if kids:
+                slots: List[Any] = []
+                try:
+                    rnode_of(ctx, inv, out3, lambda sub, slots=slots: (slots.append(sub), ("RMsgs", N(0)))[1])
+                except HarnessError:
+                    slots = None  # type: ignore
+                if slots is None or len(slots) != len(kids) or any(type(a_) is not type(b_) or a_ != b_ for a_, b_ in zip(slots, rets)):
+                    report("C12:callback-result-dropped",
+                           f"next_level returned {rets!r} for the {len(kids)} children of a {type(inv.err_type).__name__}; the rendering holds {slots!r} at the child positions: {out3!r}", c)
+        except Exception as e:  # noqa
+            if c.tag == "builtin":
+                report("C12:render-raised", f"to_serializable_errs(inv, falsy next_level) raised {e!r}", c)
         # (c) the InvalidArgsError / InvalidReturnError message renderer
         try:
             m1 = _get_arg_fail_message(inv)
@@ -271,7 +316,11 @@ def run(tier: str, rng: random.Random, proof_ok: bool) -> dict:
             e2 = InvalidReturnError(inv)
             if type(m1) is not str or type(str(e1)) is not str or type(str(e2)) is not str:
                 report("C12:message-not-str", "message renderer did not return a string", c)
-            elif len(m1.split("\n")) != message_lines(inv):
+            else:
+                # line structure (indentation level of every line, in order) against the model's msg_levels
+                levels = [(len(ln) - len(ln.lstrip(" "))) // 4 for ln in m1.split("\n")]
+                lines.append((f"(msg_levels 0%nat {coq(inv_t)})", "[" + "; ".join(f"{k}%nat" for k in levels) + "]", c))
+            if type(m1) is str and len(m1.split("\n")) != message_lines(inv):
                 report("C12:message-entries", f"the message has {len(m1.split(chr(10)))} lines for an error tree with {message_lines(inv)} "
                                               f"entries (one per failing key, index, pair, member, variant and predicate): {m1!r}", c)
         except Exception as e:  # noqa
